@@ -65,35 +65,27 @@ Fixpoint parse_letters (s : list ascii) : option (list bool * list bool) :=
     | _, _ => None
     end
   end.
-(** from_string: None = any exception (IndexError on exhausted input, ValueError on a
-    bad letter). Whitespace removal is applied first. *)
+(** from_string: None = ValueError on a bad letter. Whitespace removal is applied first;
+    the prefix tests are `startswith`, so the empty remainder is handled. *)
 Definition strip_ws (s : list ascii) : list ascii := filter (fun a => negb (Ascii.eqb a " ")) s.
 Definition pparse (s0 : list ascii) : option pstr :=
   let s := strip_ws s0 in
-  match s with
-  | [] => None
-  | c0 :: _ =>
-    let s := if Ascii.eqb c0 "+" then tl s else s in
+  let s := match s with c0 :: r0 => if Ascii.eqb c0 "+" then r0 else s | [] => s end in
+  let qs :=
     match s with
-    | [] => None
     | c :: r =>
-      let qs :=
-        if Ascii.eqb c "-" then
-          match r with
-          | [] => None
-          | c1 :: r1 => if Ascii.eqb c1 "i" then Some (1%Z, r1) else Some (2%Z, r)
-          end
-        else if Ascii.eqb c "i" then Some (3%Z, r)
-        else Some (0%Z, s) in
-      match qs with
-      | None => None
-      | Some (q, body) =>
-        match parse_letters body with
-        | Some (zs, xs) => Some {| pz := zs; px := xs; pq := q |}
-        | None => None
+      if Ascii.eqb c "-" then
+        match r with
+        | c1 :: r1 => if Ascii.eqb c1 "i" then (1%Z, r1) else (2%Z, r)
+        | [] => (2%Z, r)
         end
-      end
-    end
+      else if Ascii.eqb c "i" then (3%Z, r)
+      else (0%Z, s)
+    | [] => (0%Z, s)
+    end in
+  match parse_letters (snd qs) with
+  | Some (zs, xs) => Some {| pz := zs; px := xs; pq := fst qs |}
+  | None => None
   end.
 
 (** matrices *)
